@@ -167,6 +167,9 @@ def run(check, ctx):
     check.ob("K-pw", "K-pw|rsa.k", not wrong, rmod.path, fnk.lineno,
              extracted="; ".join(wrong[:3]) if wrong else "8 modulus sizes around multiples of 8: k = ceil(modBits / 8)",
              expected="RFC 8017: k is the length in octets of the modulus (rounded up); message limits and ciphertext length are stated in k")
+    # ---- the RSA primitives on complete toy moduli (CRT, blinding, byte conversion) -----------------
+    from .c04_extra import rsa_toy_rows
+    rsa_toy_rows(check, repo, thorough=ctx.tier == "thorough")
     # ---- MGF1 ------------------------------------------------------------------------------------
     calls = {}
 
